@@ -40,6 +40,9 @@ claimed = {
  "C11": dict(level="exploration", technique="property-based testing (rapid) with fault injection: generated buffer shapes x modes x open helpers x exit paths (accepts, interrupts, EOF, failing editor, panicking command, injected read error); oracle termios before == after, emulated cursor on a fresh row, default cursor style",
    text="Every way out of Readline is a generated exit path; the child reports tcgetattr before and after the call, and the VT100 emulator fed with everything the library wrote gives the cursor position, the row contents and the last cursor-style sequence at the moment the call returned (screens are snapshotted when the return marker comes out of the pty).",
    note=RIG_NOTE, ref="DESIGN.md §3 C11"),
+ "C20": dict(level="exploration", technique="property-based testing (rapid) over harness-owned schedules: SIGWINCH / TIOCSWINSZ / Shell.Printf delivered at generated moments of generated editing scripts; oracles: no crash or deadlock (goroutine-dump based rest detection), differential against the undisturbed run, C04 screen layout for the current width, race detector (thorough)",
+   text="The child has no controlling terminal, so the only SIGWINCHs are the ones the check sends; the emulator can withhold cursor reports to keep the main loop inside its redisplay while a disturbance is delivered; a command registered by the harness blocks on request to model 'during command execution'.",
+   note=RIG_NOTE, ref="DESIGN.md §3 C20"),
  "C12": dict(level="exploration", technique="property-based testing (rapid): grammar-derived inputrc texts with generated mutations, raw bytes and include graphs, parsed in a child process under a watchdog; native fuzzing (go test -fuzz) in the thorough tier",
    text="Generated-input search for crashes, stack overflows and non-termination of the inputrc parser over mutated grammar-derived programs, raw bytes, option combinations and include graphs with cycles; the call must return nil or an error. Exploration: the input space is unbounded and the oracle is a totality predicate.",
    note="Parse runs in the child process (stack overflow is fatal, loops need a watchdog); inputs bounded to ~1 MiB so a 10 s limit is not honest slowness.", ref="DESIGN.md §3 C12"),
